@@ -119,7 +119,7 @@ var clauseKeywords = map[string]bool{
 	"requires": true, "ensures": true, "modifies": true, "loop": true, "foreach": true, "serves": true,
 	"trusted": true, "func": true, "fun": true, "pred": true, "lemma": true, "axiom": true, "mode": true,
 	"ghost": true, "inline": true, "pure": true, "bounded": true, "opaque": true,
-	"uses": true, "callback": true, "globalinv": true, "pattern": true, "hint": true,
+	"uses": true, "callback": true, "globalinv": true, "pattern": true, "hint": true, "footprint": true,
 }
 
 type rawLine struct {
@@ -195,6 +195,7 @@ var (
 	reFun    = regexp.MustCompile(`^(fun|pred)\s+([A-Za-z_]\w*)\s*\(([^)]*)\)\s*([\w.*\[\]]*)\s*(?::=\s*(.*))?$`)
 	reLemma  = regexp.MustCompile(`^(lemma|axiom)\s+([A-Za-z_]\w*)\s*\(([^)]*)\)\s*(.*)$`)
 	reLoop   = regexp.MustCompile(`^(loop|foreach)\s+#?(\d+)\s+(invariant|decreases|unroll)\s*(.*)$`)
+	reFootprint = regexp.MustCompile(`^footprint\s+([A-Za-z_]\w*)\s*\(\s*(\w+)\s*\)\s*:=\s*(.*)$`)
 	reLabel  = regexp.MustCompile(`^([A-Za-z_][\w\-]*):\s+(.*)$`)
 	reServes = regexp.MustCompile(`\s+serves((?:\s+C\d+)+)\s*`)
 )
@@ -498,6 +499,17 @@ func (ps *PkgSpec) parseLines(raw []rawLine) error {
 			default:
 				return errf("uses outside func/lemma")
 			}
+		case "footprint":
+			m := reFootprint.FindStringSubmatch(t)
+			if m == nil {
+				return errf("bad footprint line %q", t)
+			}
+			e, err := ParseSpec("$tuple(" + m[3] + ")")
+			if err != nil {
+				return errf("%v", err)
+			}
+			ps.Funs["Footprint$"+m[1]] = &SpecFun{Pkg: ps.Pkg, Name: "Footprint$" + m[1], Params: []SBinder{{m[2], "*" + m[1]}}, Body: e, File: l.file, Line: l.line}
+			cur, curLemma = nil, nil
 		case "hint":
 			if cur == nil {
 				return errf("hint outside func")
